@@ -932,7 +932,7 @@ class Exec(ExprMixin, CallMixin):
                                         keys.add(('has', fid))
                         if callee.allocates:
                             keys.add(('alloc',))
-                        for gname in getattr(callee, 'ghost_sets', {}):
+                        for gname in (self.ghost_touched(callee) if hasattr(callee, 'name') else getattr(callee, 'ghost_sets', {})):
                             keys.add(('g', gname, self.eng.ptype(self.eng.prop.ghosts[gname])))
                     if isinstance(f, ast.Name) and f.id in self.eng.prop.classes:
                         keys.add(('alloc',))
@@ -975,7 +975,9 @@ class Exec(ExprMixin, CallMixin):
         if src in self.c.calls:
             tgt = self.c.calls[src]
             if isinstance(tgt, (list, tuple)):
-                return Contract_union([P.contracts[x] for x in tgt])
+                u = Contract_union([P.contracts[x] for x in tgt])
+                u.ghost_sets = {g: None for x in tgt for g in self.ghost_touched(P.contracts[x])}
+                return u
             return P.contracts[tgt]
         if isinstance(f, ast.Name) and f.id in P.contracts:
             return P.contracts[f.id]
@@ -986,6 +988,7 @@ class Exec(ExprMixin, CallMixin):
             if cands:
                 # union of effects
                 u = Contract_union(cands)
+                u.ghost_sets = {g: None for c_ in cands for g in self.ghost_touched(c_)}
                 return u
         return None
 
@@ -1147,7 +1150,7 @@ class Exec(ExprMixin, CallMixin):
                             hkeys.add(('has', fid))
             if hook.allocates:
                 hkeys.add(('alloc',))
-            for gname in getattr(hook, 'ghost_sets', {}):
+            for gname in self.ghost_touched(hook):
                 hkeys.add(('g', gname, self.eng.ptype(self.eng.prop.ghosts[gname])))
         head = st.copy()
         pre = self.havoc(head, names | self.hidden_names(ordn), hkeys, al, ad, lc)
@@ -1586,11 +1589,37 @@ class Exec(ExprMixin, CallMixin):
             gt = eng.ptype(eng.prop.ghosts[gname])
             gv = self.spec_value(gexpr, pre.copy(), env, old=pre)
             st.seth(('g', gname, gt), coerce(gv, gt).z)
+        # a callee under contract whose body (transitively) calls ghost-setting contracts changes those ghosts too: they are
+        # unknown after the call except for what its ensures say
+        for gname in sorted(self.ghost_touched(c) - set(c.ghost_sets)):
+            gt = eng.ptype(eng.prop.ghosts[gname])
+            st.seth(('g', gname, gt), gt.fresh(fresh_name('g_' + gname)))
         env2 = dict(env, result=res)
         for e in c.ensures:
             st.assume(self.spec_eval(e, st, env2, old=pre))
         st.old = my_old
         return res
+
+    def ghost_touched(self, c, seen=None):
+        """Ghost globals a call to contract c may change: its own ghost_sets plus, transitively, those of the contracts its body calls."""
+        cache = self.eng.__dict__.setdefault('_ghost_touched', {})
+        key = getattr(c, 'name', None)
+        if key in cache:
+            return cache[key]
+        seen = set() if seen is None else seen
+        if id(c) in seen:
+            return set()
+        seen.add(id(c))
+        out = set(getattr(c, 'ghost_sets', {}) or {})
+        P = self.eng.prop
+        for tgt in (getattr(c, 'calls', {}) or {}).values():
+            for nm in (tgt if isinstance(tgt, (list, tuple)) else [tgt]):
+                cc = P.contracts.get(nm)
+                if cc is not None:
+                    out |= self.ghost_touched(cc, seen)
+        if len(seen) == 1 or key is not None:
+            cache[key] = out
+        return out
 
     def mod_keys(self, m, st):
         f = m.field
